@@ -131,6 +131,8 @@ func runCook(c *ctx) {
 		{false, "", true, config.SameSiteNone, "https://app.example.com/team/app"},
 		{false, "", false, config.SameSiteLax, "http://localhost:3000"},
 		{false, "", false, config.SameSiteStrict, "http://localhost/deep/er"},
+		// SSO switched OFF but its settings still present (a deployment that moved back to standalone): they must have no effect on the cookies
+		{false, "example.com", true, config.SameSiteNone, "https://app.example.com/svc"},
 		{true, "example.com", true, config.SameSiteLax, "https://sso.example.com"},
 		{true, ".example.com", true, config.SameSiteNone, "https://sso.example.com"},
 		{true, "example.com", true, config.SameSiteStrict, "https://login.sso.example.com"},
@@ -138,7 +140,12 @@ func runCook(c *ctx) {
 	for ci, cc := range cfgs {
 		cc := cc
 		o := sutOpts{ingresses: []string{cc.ingress}, secure: cc.secure, sidRequired: true, legacyCookie: ci%3 == 1, // deterministic: the legacy flag is always exercised (known finding F7)
- tweak: func(cfg *config.Config) { cfg.Cookie.SameSite = cc.sameSite }}
+ tweak: func(cfg *config.Config) {
+				cfg.Cookie.SameSite = cc.sameSite
+				if !cc.sso && cc.domain != "" { // leftovers of a disabled SSO set-up
+					cfg.SSO.Domain, cfg.SSO.SessionCookieName, cfg.SSO.ServerDefaultRedirectURL = cc.domain, "sso.session", "https://www.example.com"
+				}
+			}}
 		if cc.sso {
 			o.mode, o.ssoDomain, o.ssoDefaultURL = "sso-server", cc.domain, "https://app.example.com/"
 			cookie.ConfigureCookieNamesWithPrefix("sso.session")
